@@ -186,6 +186,9 @@ func (t *htmlTemplate) processTagStart(node *Node, tokenBuf *strings.Builder,
 			cmd := strings.TrimPrefix(an, attrPrefix)
 			switch cmd {
 			case attrWith: // 赋值
+				if t.currentAttrs[node] != 0 {
+					continue // 条件/循环重新执行本节点时 变量已在传入的作用域中 不再重复求值
+				}
 				result, err := attr.WithAssign(data)
 				if err != nil {
 					return data, err
